@@ -34,6 +34,7 @@ func init() {
 	evals["hsflight"] = evalHsflight
 	evals["hsout"] = evalHsout
 	evals["chmod"] = evalChmod
+	evals["shmod"] = evalShmod
 	gens["C15"] = genC15
 }
 
@@ -296,19 +297,23 @@ type c15Item struct {
 }
 
 type c15Mitm struct {
-	sc        *c15Script
-	dst       *qConn
-	idx       int
-	hsbuf     []byte
-	seenCCS   bool
-	carry     []byte // handshake bytes to put in front of the next handshake record (join)
-	held      *c15Item
-	heldEdits []c15Edit
-	rewrite   func(raw []byte) []byte
-	tls       bool
-	closed    bool
-	types     []string // observed item types (hsflight)
-	mu        sync.Mutex
+	sc             *c15Script
+	dst            *qConn
+	idx            int
+	hsbuf          []byte
+	seenCCS        bool
+	carry          []byte // handshake bytes to put in front of the next handshake record (join)
+	held           *c15Item
+	heldEdits      []c15Edit
+	rewrite        func(raw []byte) []byte
+	tls            bool
+	hmu            sync.Mutex
+	holdAfterFirst bool
+	holding        bool
+	heldItems      []*c15Item
+	closed         bool
+	types          []string // observed item types (hsflight)
+	mu             sync.Mutex
 }
 
 func (m *c15Mitm) write(typ byte, vers uint16, body []byte) {
@@ -500,6 +505,32 @@ func (m *c15Mitm) emit(it *c15Item, edits []c15Edit) {
 
 // one item of the honest stream has arrived
 func (m *c15Mitm) item(it *c15Item) {
+	if m.holding { // shmod: nothing after the hello is delivered until the client is seen to wait for it
+		m.heldItems = append(m.heldItems, it)
+		return
+	}
+	m.itemNow(it)
+	if m.holdAfterFirst && m.idx == 1 {
+		m.holding = true
+	}
+}
+
+// release what was held back; reports whether anything was being held
+func (m *c15Mitm) release() bool {
+	m.hmu.Lock()
+	defer m.hmu.Unlock()
+	if !m.holding {
+		return false
+	}
+	m.holding, m.holdAfterFirst = false, false
+	for _, it := range m.heldItems {
+		m.itemNow(it)
+	}
+	m.heldItems = nil
+	return true
+}
+
+func (m *c15Mitm) itemNow(it *c15Item) {
 	i := m.idx
 	m.idx++
 	m.mu.Lock()
@@ -556,6 +587,8 @@ func (m *c15Mitm) item(it *c15Item) {
 
 // a record from P
 func (m *c15Mitm) record(r record) {
+	m.hmu.Lock()
+	defer m.hmu.Unlock()
 	if m.seenCCS {
 		m.item(&c15Item{kind: "enc", raw: r.body, vers: r.vers, rtyp: r.typ})
 		return
@@ -593,6 +626,8 @@ type c15Run struct {
 	eofOut  int                     // >= 0: end the stream E -> P after that many records of E
 	rewrite func(raw []byte) []byte // applied to the first handshake message towards E (chmod)
 	mode    string                  // server mode for chmod: gm, auto, tls ("" = by role)
+	offer   []uint16                // shmod: the client's Config.CipherSuites
+	hold    bool                    // shmod: deliver the first item only, the rest once E is seen to wait for it
 }
 
 type c15Result struct {
@@ -606,6 +641,7 @@ type c15Result struct {
 	out      []byte   // plaintext handshake bytes E wrote
 	outRecs  int
 	pPanic   string
+	waited   bool // shmod: E took the first item and waited for more
 }
 
 const c15Timeout = 6 * time.Second
@@ -700,6 +736,9 @@ func c15Exec(rn c15Run) (res c15Result) {
 		res.setup = "bad-config"
 		return
 	}
+	if rn.offer != nil {
+		ccfg.CipherSuites = rn.offer
+	}
 	if rn.fl["resume"] {
 		first := runPair(ccfg, scfg, pairOpts{})
 		if !first.c.done || !first.s.done {
@@ -717,7 +756,19 @@ func c15Exec(rn c15Run) (res c15Result) {
 		E, P = gmtls.Server(eConn, scfg), gmtls.Client(pConn, ccfg)
 	}
 	mitm := &c15Mitm{sc: rn.sc, dst: mE, rewrite: rn.rewrite, tls: ccfg.GMSupport == nil}
-	w.onQuiet = func() { mE.closeWrite() } // deadlock: the peer "goes away"
+	mitm.holdAfterFirst = rn.hold
+	waited := false
+	w.onQuiet = func() {
+		if mitm.release() { // E accepted the hello and waits for the next message: let the stream go on
+			w.mu.Lock()
+			waited = true
+			w.fired = false
+			w.checkQuiet()
+			w.mu.Unlock()
+			return
+		}
+		mE.closeWrite() // deadlock: the peer "goes away"
+	}
 
 	var relays, observer sync.WaitGroup
 	relays.Add(1)
@@ -799,6 +850,9 @@ func c15Exec(rn c15Run) (res c15Result) {
 	waitTimeout(&relays, 2*time.Second)
 	res.done, res.err, res.panicked = er.done, er.err, er.panicked
 	res.pPanic = pr.panicked
+	w.mu.Lock()
+	res.waited = waited
+	w.mu.Unlock()
 	if os.Getenv("VERIF_DEBUG") != "" {
 		fmt.Fprintf(os.Stderr, "E: done=%v err=%v | P: done=%v err=%v\n", er.done, er.err, pr.done, pr.err)
 	}
@@ -1140,6 +1194,72 @@ func evalChmod(args []string) string {
 	return v + " " + answer
 }
 
+// shmod <client gm|tls> <offer hhhh.hhhh…|-> <vers:hhhh | suite:hhhh | comp:hh>
+// the endpoint under test is the client, configured with the given CipherSuites (- = default); the man in the
+// middle rewrites one field of the genuine ServerHello and holds everything after it back until the client is
+// seen waiting for the next message.  Printed: rejected:<alert> when the client aborts on the hello itself,
+// otherwise (the hello was accepted) done or accepted-error; nohello when the server sent none.
+func evalShmod(args []string) string {
+	if len(args) != 3 || (args[0] != "gm" && args[0] != "tls") {
+		return "bad-op"
+	}
+	offer, ok := c15HexList(args[1], 4)
+	f := strings.SplitN(args[2], ":", 2)
+	if !ok || len(f) != 2 {
+		return "bad-op"
+	}
+	width := map[string]int{"vers": 4, "suite": 4, "comp": 2}[f[0]]
+	if width == 0 {
+		return "bad-op"
+	}
+	v, ok := c15HexList(f[1], width)
+	if !ok || len(v) != 1 {
+		return "bad-op"
+	}
+	changed, parsed := false, true
+	rewrite := func(raw []byte) []byte {
+		if len(raw) < 4+2+32+1 || raw[0] != 2 || len(raw) < 4+35+int(raw[4+34])+3 {
+			parsed = false
+			return raw
+		}
+		out := append([]byte{}, raw...)
+		n := int(raw[4+34])
+		switch f[0] {
+		case "vers":
+			out[4], out[5] = byte(v[0]>>8), byte(v[0])
+		case "suite":
+			out[4+35+n], out[4+36+n] = byte(v[0]>>8), byte(v[0])
+		case "comp":
+			out[4+37+n] = byte(v[0])
+		}
+		changed = string(out) != string(raw)
+		return out
+	}
+	role := map[string]string{"gm": "gmclient", "tls": "tlsclient"}[args[0]]
+	res := c15Exec(c15Run{role: role, fl: map[string]bool{}, sc: &c15Script{}, eofOut: -1, rewrite: rewrite, offer: offer, hold: true})
+	switch {
+	case res.setup != "":
+		return "setup-failed:" + res.setup
+	case res.panicked != "":
+		return "ORACLE-FAIL:panic:" + c15Clean(res.panicked)
+	case res.pPanic != "":
+		return "ORACLE-FAIL:peer-panic:" + c15Clean(res.pPanic)
+	case res.hung:
+		return "ORACLE-FAIL:hang"
+	case len(res.types) == 0:
+		return "nohello"
+	case !parsed:
+		return "ORACLE-FAIL:harness-could-not-parse-the-genuine-hello"
+	case res.done && changed:
+		return "ORACLE-FAIL:completed-on-misbehaviour"
+	case res.done:
+		return "done"
+	case !res.waited:
+		return "rejected:" + res.alert
+	}
+	return "accepted-error"
+}
+
 // ---- generator ---------------------------------------------------------------------------------------------
 
 type c15Config struct{ role, flags string }
@@ -1282,7 +1402,7 @@ func (g *c15Gen) byteEdits(r *rng, all bool) []string {
 			out = append(out, fmt.Sprintf("len:%d:1:3:%d", i, d), fmt.Sprintf("len:%d:3:1:%d", i, d))
 		}
 		out = append(out, fmt.Sprintf("len:%d:1:1:1", i), fmt.Sprintf("len:%d:2:1:1", i)) // > 64 KiB
-		if it != "shd" { // stray bytes at the end of an inner vector, all enclosing lengths consistent
+		if it != "shd" {                                                                  // stray bytes at the end of an inner vector, all enclosing lengths consistent
 			for depth := 1; depth <= 3; depth++ {
 				for _, k := range []int{1, 2} {
 					out = append(out, fmt.Sprintf("len:%d:%d:9:%d", i, depth, k))
